@@ -118,7 +118,7 @@ def gen_procprog(rng: random.Random) -> dict:
     procs = []
     for _ in range(n_procs):
         steps = gen_steps(0, 6, [0])
-        procs.append({"t": rng.choice(TIMES_NS), "hook": rng.random() < 0.5,
+        procs.append({"t": rng.choice(TIMES_NS), "hook": rng.random() < 0.5, "hook_when": rng.choice(["create", "create", "body"]),
                       "hook_emits": [], "steps": steps, "ret": rng.choice(["none", "one", "list"]),
                       "ret_emits": [], "daemon": rng.random() < 0.1})
     # emits that refer to any future (now that all exist)
@@ -264,12 +264,15 @@ class _Proc(Entity):
         self._NO_EVENTS: list = []
 
     def handle_event(self, event):
-        return self._body(self.w.sc["procs"][self.idx])
+        return self._body(self.w.sc["procs"][self.idx], event)
 
-    def _body(self, p):
+    def _body(self, p, event):
         w = self.w
         log = w.plog[self.idx]
         log.append(("start", self.now.nanoseconds, None))
+        if p.get("hook") and p.get("hook_when") == "body":
+            # registered from inside the running process, on an event that had no hooks at dispatch
+            event.add_completion_hook(w._hook(("proc", self.idx), p.get("hook_emits", [])))
         slots = {}
         yield from self._steps(p["steps"], log, slots)
         created = w.make_events(self.now.nanoseconds, p.get("ret_emits", []))
@@ -288,14 +291,15 @@ class _Proc(Entity):
                 evs = w.make_events(self.now.nanoseconds, s.get("emits", []))
                 form = s.get("form", "bare")
                 if not evs and form == "shared_empty":
-                    yield s["d"], self._NO_EVENTS  # one list object reused by every such yield
+                    got = yield s["d"], self._NO_EVENTS  # one list object reused by every such yield
                 elif evs and form == "single" and len(evs) == 1:
-                    yield s["d"], evs[0]
+                    got = yield s["d"], evs[0]
                 elif evs or form == "tuple":
-                    yield s["d"], (evs if evs else None)
+                    got = yield s["d"], (evs if evs else None)
                 else:
-                    yield s["d"]
-                log.append(("delay", self.now.nanoseconds, None))
+                    got = yield s["d"]
+                # a delay yield resumes with nothing (None): log what was actually received
+                log.append(("delay", self.now.nanoseconds, _norm(got)))
             elif op == "wait":
                 v = yield w.build_tree(s["tree"])
                 log.append((_tree_kind(s["tree"]), self.now.nanoseconds, _norm(v)))
@@ -355,7 +359,7 @@ class EngineWorld:
         out = []
         for i, p in enumerate(self.sc["procs"]):
             ev = Event(time=Instant(p["t"]), event_type="start", target=self.procs[i], daemon=p.get("daemon", False))
-            if p.get("hook"):
+            if p.get("hook") and p.get("hook_when", "create") == "create":
                 ev.add_completion_hook(self._hook(("proc", i), p.get("hook_emits", [])))
             out.append(ev)
         for e in self.sc["initial"]:
